@@ -11,6 +11,6 @@ with tempfile.TemporaryDirectory() as d:
     mf = os.path.join(d, 'm.go')
     open(mf, 'w').write(src.replace(find, repl, 1))
     r = subprocess.run(['/verif/bin/yv', 'check', '-p', props, '-overlay', f'{rel}={mf}', '-evidence', os.path.join(d, 'ev')], capture_output=True, text=True)
-    out = [l for l in (r.stdout + r.stderr).splitlines() if not l.startswith('VIOLATION')]
+    out = [l for l in (r.stdout + r.stderr).splitlines() if not l.startswith('VIOLATION') and not l.startswith('KNOWN-FINDING')]
     print('\n'.join(out[-30:]))
     print('exit', r.returncode)
